@@ -53,6 +53,50 @@ def strip_anchor(p):
     return m.group(1) if m else "UNANCHORED:" + p
 
 
+def groups_of(p):
+    """own content model as a list of groups [("seq"|"all"|"choice", [effective elems])], or None when it has a
+    wildcard or a group the three kinds do not express (a choice over a sequence group, nested choices, ...)"""
+    if p is None:
+        return []
+    def elems_only(q):
+        return all(c["k"] == "elem" for c in q["ps"])
+    def flat_seq(q, outer):
+        """a (possibly nested) sequence of element particles and element-level choices -> groups"""
+        out = []
+        rng = xsd_extract.mul((q["lo"], q["hi"]), outer)
+        if rng != (1, 1):
+            return None
+        run = []
+        for c in q["ps"]:
+            if c["k"] == "elem":
+                run.append(c)
+            elif c["k"] == "seq":
+                if run:
+                    out.append(("seq", run)); run = []
+                sub = flat_seq(c, (1, 1))
+                if sub is None:
+                    return None
+                out += sub
+            elif c["k"] == "choice" and elems_only(c) and (c["lo"], c["hi"]) == (1, 1):
+                if run:
+                    out.append(("seq", run)); run = []
+                out.append(("choice", list(c["ps"])))
+            else:
+                return None
+        if run:
+            out.append(("seq", run))
+        return out
+    if p["k"] == "elem":
+        return [("seq", [p])]
+    if p["k"] == "any":
+        return None
+    if p["k"] == "all":
+        return [("all", list(p["ps"]))] if elems_only(p) and (p["lo"], p["hi"]) == (1, 1) else None
+    if p["k"] == "choice":
+        return [("choice", list(p["ps"]))] if elems_only(p) and (p["lo"], p["hi"]) == (1, 1) else None
+    return flat_seq(p, (1, 1))
+
+
 def emit(X, table, N, out_path):
     stnames = {s["name"] for s in X["stypes"]}
     rows = []
@@ -68,6 +112,22 @@ def emit(X, table, N, out_path):
                                                            lbool(has_any(t["content"])), lbool(has_required_choice(t["content"])),
                                                            lbool(has_interleaved(t["content"])),
                                                            lbool(has_all(t["content"]))))
+    grows = []
+    for t in X["ctypes"]:
+        gs = groups_of(t["content"])
+        if gs is None:
+            grows.append("  (%d, none)" % N(t["name"]))
+            continue
+        gl = []
+        for kind, es in gs:
+            el = []
+            for e in es:
+                is_text = e["type"] in stnames or (e["type"] or "").startswith("xs:")
+                in_choice = kind == "choice"
+                el.append("⟨%d, %d, %d, %s, %s, %s, %s⟩" % (N(e["tag"]), N(e["type"]), e["lo"], opt(e["hi"]),
+                                                      lbool(in_choice), lbool(is_text), opt(N(e["type"]) if e["type"] in stnames else None)))
+            gl.append("(.%s [%s])" % (kind, ", ".join(el)))
+        grows.append("  (%d, some [%s])" % (N(t["name"]), ", ".join(gl)))
     sf = []
     for s in X["stypes"]:
         sf.append("  ⟨%d, %s, [%s], [%s], [%s]⟩" % (
@@ -101,9 +161,10 @@ def emit(X, table, N, out_path):
             parts.append("def %s%d : List %s := [\n%s\n]\n" % (name, i // n, ty, ",\n".join(items[i:i + n])))
         return "\n".join(parts) + "def %s : List %s := %s\n" % (name, ty, " ++ ".join("%s%d" % (name, i // n) for i in range(0, max(len(items), 1), n)))
     src = ("import NmlVerif.Model.Schema\n/-! GENERATED by translators/emit_xsd.py from %s and neuroml/nml/nml.py — do not edit. -/\n"
-           "namespace NmlVerif.Gen.Xsd\nopen NmlVerif.Schema\n\n%s\n%s\n%s\ndef schemaVersion : String := %s\nend NmlVerif.Gen.Xsd\n"
+           "namespace NmlVerif.Gen.Xsd\nopen NmlVerif.Schema\n\n%s\n%s\n%s\n%s\ndef schemaVersion : String := %s\nend NmlVerif.Gen.Xsd\n"
            % (os.path.basename(X["path"]), chunked("types", "XType", rows), chunked("schemaFacets", "Facets", sf),
-              chunked("bindingFacets", "(Nat × Facets)", cp), lstr(X["version"] or "")))
+              chunked("bindingFacets", "(Nat × Facets)", cp), chunked("groups", "(Nat × Option (List XGroup))", grows),
+              lstr(X["version"] or "")))
     old = open(out_path).read() if os.path.exists(out_path) else None
     if old != src:
         with open(out_path, "w") as fh:
